@@ -153,6 +153,11 @@ func init() {
 			}
 			return nil
 		},
+		// verifUnsupported: the harness's environment model cannot answer what the code under test just did;
+		// the path is inconclusive (never a violation, never a pass)
+		"verifUnsupported": func(in *Interp, fr *frame, args []Value) Value {
+			panic(pathEnd{"unsupported", "harness model: " + argStr(args[0])})
+		},
 		"verifSymbolic": func(in *Interp, fr *frame, args []Value) Value { return Bool(in.ex.fixed == nil) },
 		// verifConcInt forks over the feasible values of an int (bounded)
 		"verifConcInt": func(in *Interp, fr *frame, args []Value) Value {
